@@ -509,9 +509,14 @@ package asm
 //@ func irAddrSpace
 //@   props C06
 //@   pure
+//@ # uintLit: the number an unsigned literal denotes -- a decimal numeral in base 10, u0x... in base 16 (vector and array
+//@ # lengths, address spaces, alignments, struct indices of extractvalue/insertvalue)
 //@ func uintLit
-//@   props C04 C05
+//@   props C04 C05 C06 C16
 //@   pure
+//@   partial
+//@   ensures !(len(old.Text()) >= 3 && old.Text()[0:3] == "u0x") ==> result == numval(old.Text(), 10)
+//@   ensures len(old.Text()) >= 3 && old.Text()[0:3] == "u0x" ==> result == numval(old.Text()[3:len(old.Text())], 16)
 //@ # uintSlice translates the literals one by one into a new slice (nothing else is touched)
 //@ func uintSlice
 //@   props C04 C05
@@ -2092,9 +2097,12 @@ package asm
 //@   requires gen != nil
 //@   assigns cast(t, "*types.StructType").Opaque
 //@   ensures result1 == nil && result0 == t && typeis(t, "*types.StructType") && cast(t, "*types.StructType") != nil && cast(t, "*types.StructType").Opaque
+//@ # irBitSize: iN denotes the bit size N read in base 10
 //@ func irBitSize
 //@   props C06 C16
 //@   pure
+//@   partial
+//@   ensures len(n.Text()) >= 1 && result == numval(n.Text()[1:len(n.Text())], 10)
 //@ # ---------------------------------------------------------------- C04 / C05 / C16 (scaffolds of type definitions) ---
 //@ # tnamed(t, n): the IR type t carries the type name n
 //@ macro tnamed(t types.Type, n string) bool = (typeis(t, "*types.VoidType") ==> cast(t, "*types.VoidType").TypeName == n) && (typeis(t, "*types.FuncType") ==> cast(t, "*types.FuncType").TypeName == n) && (typeis(t, "*types.IntType") ==> cast(t, "*types.IntType").TypeName == n) && (typeis(t, "*types.FloatType") ==> cast(t, "*types.FloatType").TypeName == n) && (typeis(t, "*types.MMXType") ==> cast(t, "*types.MMXType").TypeName == n) && (typeis(t, "*types.PointerType") ==> cast(t, "*types.PointerType").TypeName == n) && (typeis(t, "*types.VectorType") ==> cast(t, "*types.VectorType").TypeName == n) && (typeis(t, "*types.LabelType") ==> cast(t, "*types.LabelType").TypeName == n) && (typeis(t, "*types.TokenType") ==> cast(t, "*types.TokenType").TypeName == n) && (typeis(t, "*types.MetadataType") ==> cast(t, "*types.MetadataType").TypeName == n) && (typeis(t, "*types.ArrayType") ==> cast(t, "*types.ArrayType").TypeName == n) && (typeis(t, "*types.StructType") ==> cast(t, "*types.StructType").TypeName == n)
